@@ -1,6 +1,26 @@
 ----------------------------- MODULE TotalityEmit -----------------------------
-EXTENDS Totality, Json
-Init == GInit /\ LInit
-Next == GNext /\ UNCHANGED lvars
+(* Wrappers that run one of the generators of Totality.tla / TotalityValues.tla and hand the finished cases to  *)
+(* Python (PrintT(ToJson(case)) as an invariant).  Every wrapper starts all generators in their single initial  *)
+(* state and steps exactly one of them.                                                                         *)
+EXTENDS Totality, TotalityValues, Json
+AllInit == GInit /\ LInit /\ PInit /\ YInit /\ VInit /\ RInit
+\* G: modules made of fragments
+Init == AllInit
+Next == GNext /\ UNCHANGED <<lvars, pvars, yvars, vvars, rvars>>
 EmitDone == stage = "done" => PrintT(ToJson([prog |-> prog]))
+\* P: the abstract position model (no emission: checked against PosProperty)
+PosInit == AllInit
+PosNext == PNext /\ UNCHANGED <<gvars, lvars, yvars, vvars, rvars>>
+\* Y: layouts
+LayInit == AllInit
+LayNext == YNext /\ UNCHANGED <<gvars, lvars, pvars, vvars, rvars>>
+EmitLayout == ystage = "done" => PrintT(ToJson([layout |-> lay]))
+\* V: pairs of Value terms; R: (object, type) pairs for the runtime API
+ValInit == AllInit
+ValNext == VNext /\ UNCHANGED <<gvars, lvars, pvars, yvars, rvars>>
+EmitPair == vstage = "done" => PrintT(ToJson([a |-> vcase.a, b |-> vcase.b, fam |-> (vcase.a \in CallFamily /\ vcase.b \in CallFamily),
+                                                      big |-> (IsBigUnion(vcase.a) \/ IsBigUnion(vcase.b))]))
+RtInit == AllInit
+RtNext == RNext /\ UNCHANGED <<gvars, lvars, pvars, yvars, vvars>>
+EmitRt == rstage = "done" => PrintT(ToJson(rcase))
 =============================================================================
